@@ -2,7 +2,13 @@ package main
 
 // rng.go - one deterministic PRNG (splitmix64); every random choice derives from VERIF_SEED.
 
-type Rng struct{ s uint64 }
+type Rng struct {
+	s uint64
+	// the last Map RootMap built around one path (chainDoc) and that path; DerivedPath returns it
+	// (or a variation) half of the time when asked about that Map
+	chainMap  map[string]interface{}
+	chainPath string
+}
 
 func NewRng(seed uint64) *Rng { return &Rng{s: seed + 0x9e3779b97f4a7c15} }
 
